@@ -142,6 +142,35 @@ def main(tier):
                     e["ppt"] = ppt_of([o[1][0]], [ref[3]], scale)
                 events.append(e)
                 ev("UnitSystemManager.ConvertScalarToCurrent", lambda: m.ConvertScalarToCurrent(Scalar(cat, VALS[3], u)), idx=[3])
+                # a history: the current system pointed at another unit w when the same amounts were converted before
+                others = [x for x in us if x not in (u, v)]
+                if others:
+                    w_ = others[(len(events) + len(u)) % len(others)]
+                    m2 = UnitSystemManager()
+                    sys2 = m2.AddUnitSystem("sys", "caption", {cat: w_})
+                    P.outcome(lambda: m2.ConvertToCurrent(cat, u, VALS[3]))
+                    P.outcome(lambda: m2.ConvertScalarToCurrent(Scalar(cat, VALS[3], u)))
+                    sys2.SetDefaultUnit(cat, v)
+                    o = P.outcome(lambda: m2.ConvertToCurrent(cat, u, VALS[3]))
+                    e = {"op": "Route", "route": "UnitSystemManager.ConvertToCurrent after the current system's default unit changed (was %s)" % w_, "u": u, "v": v,
+                         "src_category": cat, "src_qtype": qt, "src_kind": "", "ok": o[0] == "ok", "ppt": 2 ** 31 - 1, "len_ok": True, "category": cat, "qtype": qt,
+                         "unit": o[1][1] if o[0] == "ok" else "", "kind": ""}
+                    if o[0] == "ok":
+                        e["ppt"] = ppt_of([o[1][0]], [ref[3]], scale)
+                    events.append(e)
+                    ev("UnitSystemManager.ConvertScalarToCurrent after the current system's default unit changed", lambda: m2.ConvertScalarToCurrent(Scalar(cat, VALS[3], u)), idx=[3])
+                # long integer numpy arrays (more than one block of any block-wise implementation), compared at a few positions
+                if (len(events) + len(v)) % 4 == 0:
+                    big = numpy.arange(-3000, 3000)
+                    pos = [0, 1, 2999, 3000, 3001, 4095, 4096, 4097, 5999]
+                    want = [db.Convert(qt, u, v, float(big[i])) for i in pos]
+                    for rname, fn in (("db.Convert(qt, long int ndarray)", lambda: db.Convert(qt, u, v, big)), ("Array[long int ndarray].GetValues(v)", lambda: Array(cat, big, u).GetValues(v)),
+                                      ("Array[long int ndarray].CreateCopy(unit=v)", lambda: Array(cat, big, u).CreateCopy(unit=v).GetAbstractValue())):
+                        o = P.outcome(fn)
+                        okk = o[0] == "ok" and len(o[1]) == len(big)
+                        events.append({"op": "Route", "route": rname, "u": u, "v": v, "src_category": cat, "src_qtype": qt, "src_kind": "", "ok": okk,
+                                       "ppt": ppt_of([float(o[1][i]) for i in pos], want, max(scale, max(abs(x) for x in want))) if okk else 2 ** 31 - 1,
+                                       "len_ok": okk, "category": cat, "qtype": qt, "unit": v, "kind": ""})
                 # the exponent form of the conversion (derived quantities with one unit), scale-only pairs
                 if zero == 0.0 and ref[1] != 0.0:
                     slope = ref[1]
